@@ -77,6 +77,10 @@ def build(case, conv=lambda x: x):
     from cobald.composite.uniform import UniformComposite
     from cobald.composite.weighted import WeightedComposite
     pools = [mkpool(c, conv) for c in case["children"]]
+    # a sibling composite of the same class that was created empty and filled in place: what it holds is
+    # none of this composite's business
+    sibling = UniformComposite() if case["kind"] == "uniform" else WeightedComposite(weight=case["weight"])
+    sibling.children.append(RecPool(conv(F(7)), conv(F(7)), conv(F(1, 2)), conv(F(1, 2)), name="sibling's"))
     if case["kind"] == "uniform":
         return UniformComposite(*pools), pools
     return WeightedComposite(*pools, weight=case["weight"]), pools
@@ -172,15 +176,27 @@ def oracle_state(case, comp, last_D, just_wrote, tol=None):
 
 
 def oracle(case, o, conv=lambda x: x, tol=None):
-    comp, _ = build(case, conv)
+    comp, mine = build(case, conv)
+    mine = list(mine)
     out = []
     last_D = None
     out += oracle_state(case, comp, None, False, tol)
+    if [id(c) for c in comp.children] != [id(c) for c in mine]:
+        return out + [("children-foreign", "a new composite given %d pools holds %d" % (len(mine), len(comp.children)))]
     for op in case["ops"]:
         try:
             apply_op(comp, op, conv)
         except Exception as e:
             out.append(("error:%s" % type(e).__name__, "op %s raised %s" % (op, type(e).__name__)))
+            break
+        # the composite's children are the pools it was given, in that order, and nothing else
+        if op[0] == "add" and comp.children:
+            mine.append(comp.children[-1])
+        elif op[0] == "rm" and op[1] < len(mine):
+            del mine[op[1]]
+        if [id(c) for c in comp.children] != [id(c) for c in mine]:
+            out.append(("children-foreign", "the composite holds %d pools (%s), it was given %d" % (
+                len(comp.children), ", ".join(getattr(c, "name", "?") for c in comp.children if all(c is not m for m in mine)) or "other order", len(mine))))
             break
         if op[0] == "D":
             last_D = conv(unwire(op[1]))
